@@ -239,7 +239,11 @@ class SetEncoder(encoder.SequenceEncoder):
                            wrapType=namedType.asn1Object.componentType))
 
             else:
-                chunk = encodeFun(comp, compType, **options)
+                # the inner value of an open type is written in full:
+                # `ifNotEmpty` is about the field, not about what it holds
+                chunk = encodeFun(comp, compType, **(
+                    dict(options, ifNotEmpty=False)
+                    if namedType and namedType.openType else options))
 
                 # wrap open type blob if needed
                 if namedType and namedType.openType:
